@@ -23,25 +23,25 @@ import (
 )
 
 type View struct {
-	File           string
-	Line, Col      int
-	EndFile        string
+	File            string
+	Line, Col       int
+	EndFile         string
 	EndLine, EndCol int
-	Cat, Msg       string
-	Builds         string
+	Cat, Msg        string
+	Builds          string
 }
 
 type Case struct {
-	Kind   string // random | variant | directed | cli | cli-directed
-	Base   int    // index of the case this one is a variant of (variant), else -1
-	Runs   []lintcmd.VerifC12Run
-	Merged []lintcmd.VerifC12Diag // nil for cli cases
-	HasMerged bool
-	Full   []View // in-process: text and json output zipped
-	Text   []View // cli: -f text
-	JSON   []View // cli: -f json
+	Kind                      string // random | variant | directed | cli | cli-directed
+	Base                      int    // index of the case this one is a variant of (variant), else -1
+	Runs                      []lintcmd.VerifC12Run
+	Merged                    []lintcmd.VerifC12Diag // nil for cli cases
+	HasMerged                 bool
+	Full                      []View // in-process: text and json output zipped
+	Text                      []View // cli: -f text
+	JSON                      []View // cli: -f json
 	HasFull, HasText, HasJSON bool
-	Note   string
+	Note                      string
 }
 
 var textRe = regexp.MustCompile(`^(.*?):(\d+):(\d+): (.*?)(?: \[(.*)\])? \((\S+)\)$`)
@@ -222,9 +222,6 @@ func genDiag(rnd *hx.Rand) lintcmd.VerifC12Diag {
 	ci := cats[rnd.Intn(len(cats))]
 	d.Category = ci.name
 	d.MergeIf = int(ci.m)
-	if rnd.Chance(8) {
-		d.MergeIf = rnd.Intn(3) // includes a value that is neither strategy
-	}
 	d.Message = msgs[rnd.Intn(len(msgs))]
 	switch {
 	case rnd.Chance(15):
@@ -264,6 +261,11 @@ func genRuns(rnd *hx.Rand) []lintcmd.VerifC12Run {
 			pool[i] = genDiag(rnd)
 		}
 	}
+	// sometimes a category has another strategy than the usual one, including a value that is neither
+	override := map[string]int{}
+	if rnd.Chance(25) {
+		override[cats[rnd.Intn(len(cats))].name] = rnd.Intn(3)
+	}
 	nruns := 1 + rnd.Intn(6)
 	runs := make([]lintcmd.VerifC12Run, nruns)
 	for i := range runs {
@@ -275,9 +277,10 @@ func genRuns(rnd *hx.Rand) []lintcmd.VerifC12Run {
 			if rnd.Chance(10) {
 				d = mutate(rnd, d)
 			}
+			// one run = one build configuration; the strategy is a function of the category (as in lint())
 			d.BuildName = name
-			if rnd.Chance(5) {
-				d.BuildName = builds[rnd.Intn(len(builds))]
+			if m, ok := override[d.Category]; ok {
+				d.MergeIf = m
 			}
 			r.Diagnostics = append(r.Diagnostics, d)
 		}
